@@ -38,3 +38,15 @@ class MethodHolder:
 
     def __init__(self, tag):
         self.tag = tag
+
+
+class UDict(dict):
+    """a user subclass of dict (pickled through __reduce_ex__: class, state and an iterator over the items)"""
+
+
+class USet(set):
+    """a user subclass of set"""
+
+
+class UFrozenSet(frozenset):
+    """a user subclass of frozenset"""
